@@ -1,5 +1,7 @@
 SPECIFICATION Spec
 CONSTANTS
+  MaxSelSoup = 5
+  RunLens = {40, 300}
   MaxToks = 2
   Depths = {1, 2, 3, 5, 8, 12, 20, 50, 100}
   PairContexts = {"sheet", "decl-block", "decl-value", "selector", "media-rules", "import-prelude", "func-arg", "media-prelude", "page-block", "after-charset"}
